@@ -137,38 +137,51 @@ func VerifC09_Command() {
 	vReach("descended")
 }
 
-// Relational, for ANY token in front: with require-order the command line
-// [t0, p, t1, t2] (p a plain positional) leaves the same option state as
-// [t0, p] without require-order, and its remaining list is that of the short
-// line plus the two tail tokens, verbatim - unless p was consumed as a value.
+// For ANY tokens in front of a plain positional: with require-order the
+// remaining list is a verbatim suffix of the command line (the tokens from the
+// stop point on; a terminator met before it is dropped), and the option state is
+// exactly that of parsing the tokens before the stop point without
+// require-order - which consumes all of them.
 func VerifC09_RawBefore() {
 	vNativeReset()
 	mode := vInt("mode", 0, 2)
-	um := 2 // quick tier: pass-through; all three unknown modes in the thorough tier
-	if vThorough() {
-		um = vInt("um", 0, 2)
-	}
+	um := vInt("um", 0, 2)
 	vBound("runes", 2)
-	t0 := vString("t0")
-	t1, t2 := vString("t1"), vString("t2")
-	p := positional("p", "c")
+	vBound("digits", 12) // numeral boundaries are C01's subject
+	front := []string{vString("t0")}
+	if vThorough() {
+		front = append(front, vString("t0b")) // two unconstrained tokens in front
+	}
+	// the tail would be interpreted if the parser went on (VerifC09_Stop has unconstrained tails)
+	args := cat(front, []string{"STOP", "--b", "c", "-x"})
 	a, b := relDefine(mode, um, true), relDefine(mode, um, false)
 	vPhase("run")
-	remB, errB := b.opt.Parse([]string{t0, p})
-	vObserve("errB", errB != nil)
-	vObserve("remB", remB)
-	if errB != nil {
-		vReach("reference-fails")
-		return
-	}
-	if len(remB) == 0 || remB[len(remB)-1] != p {
-		vReach("stop-token-consumed")
-		return
-	}
-	remA, errA := a.opt.Parse([]string{t0, p, t1, t2})
+	remA, errA := a.opt.Parse(args)
+	vObserve("errA", errA != nil)
 	vObserve("remA", remA)
-	vAssert("no-error", errA == nil)
-	vAssert("rest-verbatim", eqStrs(remA, cat(remB, []string{t1, t2})))
+	if errA != nil {
+		vAssert("failed-parse-nil-remaining", remA == nil)
+		vReach("fails")
+		return
+	}
+	k := len(args) - len(remA)
+	if k < 0 || k > len(front) {
+		// an option in front took STOP as its value: the stop point is further on
+		vReach("positional-consumed")
+		return
+	}
+	if mode == 1 && len(remA) > 0 && strings.HasPrefix(remA[0], "-") && !strings.HasPrefix(remA[0], "--") {
+		// Bundling: a bundle of known and unknown letters is the stop token and
+		// has been interpreted up to the unknown letter (C07's rewriting)
+		vReach("bundle-is-the-stop")
+		return
+	}
+	vAssert("rest-verbatim", eqStrs(remA, args[k:]))
+	// the tokens before the stop point, parsed without require-order
+	remB, errB := b.opt.Parse(args[:k])
+	vObserve("remB", remB)
+	vAssert("prefix/no-error", errB == nil)
+	vAssert("prefix/wholly-consumed", len(remB) == 0)
 	relSame(a, b)
 	vReach("compared")
 }
